@@ -1,12 +1,123 @@
-(* C13/Run.v — model side of the trace correspondence.
-   input:  [ nwrites nedits defers_close_index ]
-   output: [ [success op kinds] [error op kinds] ]   kinds: 0 create 1 write 2 edit 3 chmod 4 close 5 remove-dest 6 rename 7 remove-temp *)
-From Relic Require Import Base.Prelude Base.Val Generated.C13_gen C13.Model.
+(* C13/Run.v — model side of the correspondence.
+   request 0 (first session, kept):  [ 0 nwrites nedits defers_close_index ]
+     -> [ [success op kinds] [error op kinds] ]   kinds: 0 create 1 write 2 edit 3 chmod 4 close 5 remove-dest 6 rename 7 remove-temp
+   request 1: one output phase on a described file system
+     [ 1 strategy [dirents] [inodes] pin pd pt it args ]
+       dirents: [ [path kind arg] ... ]  kind 0 regular file (arg = inode) / 1 symbolic link (arg = target path) / 2 special
+       inodes:  [ [ino bytes] ... ]
+       strategy 0 whole      args [ is_dash [chunk ...] ]
+                1 writefile  args [ is_dash data ]
+                2 patch      args [ nlink [ [off old blob] ... ] input_opened_for_writing ]
+                3 msi        args [ same_name nreads [ [0 off data] | [1 size] ... ] ]
+                4 pgp        args [ is_dash inline clearsign [ [0] read | [1 data] write | [2] seek | [3 data] write of the last armor line ... ] ]
+                5 pe-coff with the command line's fixup  args [ [ [off old blob] ... ] nreads checksum_offset checksum ]
+     -> [ mode [ [kind amount] ... ] accepted natural_fault [final] [ [crash k] ... ] [ [fault n] ... ] ]
+       mode: 0 standard output, 1 direct write to a special file (not modelled further), 2 write-rename, 3 in place
+       observation: [ dest_class temp_exists input_ok dest_is_link ]  dest_class 0 absent 1 old 2 new 3 neither
+       final = observation ++ [ dest bytes ] ; fault n = [ ignored ] ++ observation ++ [ [clean-up kinds] ] *)
+From Relic Require Import Base.Prelude Base.Val Generated.C13_gen C13.Model C13.Fs C13.Strategies.
+
 Definition kind (o : op) : Z :=
   match o with CreateTemp => 0 | Write _ => 1 | Edit _ => 2 | Chmod => 3 | CloseF => 4 | RemoveDest => 5 | Rename => 6 | RemoveTemp => 7 end.
-Definition run (v : val) : val :=
-  let nw := Z.to_nat (vz (vnth 0 v)) in
-  let ne := Z.to_nat (vz (vnth 1 v)) in
-  let dc := nth (Z.to_nat (vz (vnth 2 v))) strategies_defer_close false in
+Definition run_old (v : val) : val :=
+  let nw := Z.to_nat (vz (vnth 1 v)) in
+  let ne := Z.to_nat (vz (vnth 2 v)) in
+  let dc := nth (Z.to_nat (vz (vnth 3 v))) strategies_defer_close false in
   VL [VZs (map kind (success_ops (repeat [] nw) (repeat (fun x => x) ne)));
       VZs (map kind (error_ops dc (repeat [] nw) (repeat (fun x => x) ne)))].
+
+Definition mk_fs (dirs inos : list val) : fsys :=
+  mkFsys (fun q => match find (fun d => vz (vnth 0 d) =? q) dirs with
+                   | Some d => Some (if vz (vnth 1 d) =? 0 then EFile (vz (vnth 2 d))
+                                     else if vz (vnth 1 d) =? 1 then ELink (vz (vnth 2 d)) else ESpecial)
+                   | None => None end)
+         (fun i => match find (fun d => vz (vnth 0 d) =? i) inos with Some d => vb (vnth 1 d) | None => [] end) [].
+
+Section Obs.
+Variables (pin pd pt : path) (it iin : ino) (s0 : fsys).
+Definition sop_kind (o : sop) : list Z :=
+  match o with
+  | SCreate _ _ => [0; 0]
+  | SWrite i d => [if i =? it then 1 else 18; zlen d]
+  | SCopy src _ off n => [8; zlen (zslice off (off + n) (idata s0 src))]
+  | SPWrite i _ d => [if i =? it then 2 else 19; zlen d]
+  | STrunc i n => [if i =? it then 9 else 20; n]
+  | SNop k => [k; 0]
+  | SRename _ _ => [6; 0]
+  | SUnlink p => [if p =? pt then 7 else 5; 0]
+  | SStdout d => [17; zlen d]
+  end.
+Definition opt_eqb (a b : option bytes) : bool :=
+  match a, b with Some x, Some y => bytes_eqb x y | None, None => true | _, _ => false end.
+Definition observe (new : option bytes) (s : fsys) : list val :=
+  let d := sread s pd in
+  [VZ (match d with None => 0 | Some _ => if opt_eqb d (sread s0 pd) then 1 else if opt_eqb d new then 2 else 3 end);
+   of_bool (match dirent s pt with Some _ => true | None => false end);
+   of_bool (bytes_eqb (idata s iin) (idata s0 iin) && opt_eqb (sread s pin) (if pin =? pd then sread s pin else sread s0 pin));
+   of_bool (match dirent s pd with Some (ELink _) => true | _ => false end)].
+Definition report (mode : Z) (accepted : bool) (pl : list pstep) : val :=
+  let done := outcome pl s0 in
+  let new := if accepted then Some (idata (srun (ops_of pl) s0) it) else sread (srun (ops_of pl) s0) pd in
+  VL [VZ mode;
+      VL (map (fun o => VZs (sop_kind o)) (ops_of pl));
+      of_bool accepted;
+      VZ (match natural_fault pl with Some n => Z.of_nat n | None => -1 end);
+      VL (observe new done ++ [VB (match sread done pd with Some b => b | None => [] end)]);
+      VL (map (fun k => VL (observe new (scrash k pl s0))) (seq 0 (S (length pl))));
+      VL (map (fun n => VL ([of_bool (match nth_error pl n with Some st => negb (is_abort (p_onerr st)) | None => false end)]
+                            ++ observe new (fault n 0 pl s0)
+                            ++ [VZs (match nth_error pl n with Some st => map (fun o => hd 0 (sop_kind o)) (p_cleanup st) | None => [] end)]))
+              (seq 0 (length pl)))].
+End Obs.
+
+Definition is_complete (o : option nat) : bool := match o with Some 2%nat => true | _ => false end.
+Definition patch_of (v : val) : patch := mkPatch (vz (vnth 0 v)) (vz (vnth 1 v)) (vb (vnth 2 v)).
+Definition edit_of (v : val) : edit := if vz (vnth 0 v) =? 0 then EW (vz (vnth 1 v)) (vb (vnth 2 v)) else ET (vz (vnth 1 v)).
+Definition io_of (v : val) : mio :=
+  if vz (vnth 0 v) =? 0 then MRead else if vz (vnth 0 v) =? 2 then MSeek else if vz (vnth 0 v) =? 3 then MWriteLast (vb (vnth 1 v)) else MWrite (vb (vnth 1 v)).
+
+Definition run_new (v : val) : val :=
+  let strat := vz (vnth 1 v) in
+  let s0 := mk_fs (vl (vnth 2 v)) (vl (vnth 3 v)) in
+  let pin := vz (vnth 4 v) in let pd := vz (vnth 5 v) in let pt := vz (vnth 6 v) in let it := vz (vnth 7 v) in
+  let iin := match resolve s0 pin with Some i => i | None => -1 end in
+  let a := vnth 8 v in
+  let rep := report pin pd pt it iin s0 in
+  let atomic (is_dash : bool) (pl_atomic pl_stdout : list pstep) : val :=
+      let m := writeany_strategy is_dash s0 pd in
+      if m =? 2 then rep 2 (is_complete (check pt pd it 0 pl_atomic)) pl_atomic
+      else if m =? 0 then rep 0 false pl_stdout
+      else rep 1 false [] in
+  if strat =? 0 then
+    let ws := map vb (vl (vnth 1 a)) in
+    atomic (vbool (vnth 0 a)) (whole_plan pt pd it ws)
+           (stdout_plan pt pd (map (fun d => (SStdout d, false, false)) ws ++ [(SNop K_CLOSE_IN, true, false)]))
+  else if strat =? 1 then
+    let d := vb (vnth 1 a) in
+    atomic (vbool (vnth 0 a)) (writefile_plan pt pd it d) (stdout_plan pt pd [(SStdout d, false, false)])
+  else if strat =? 2 then
+    let ps := map patch_of (vl (vnth 1 a)) in
+    let insize := zlen (idata s0 iin) in
+    let d := apply_decision_fs pd iin s0 (vbool (vnth 2 a)) (vz (vnth 0 a)) ps insize in
+    let pl := apply_plan pt pd it iin d insize ps in
+    match d with
+    | Some _ => rep 3 false pl
+    | None => rep 2 (is_complete (check pt pd it 0 pl)) pl
+    end
+  else if strat =? 3 then
+    let es := map edit_of (vl (vnth 2 a)) in
+    if vbool (vnth 0 a) then rep 3 false (msi_inplace_plan pt pd iin (vz (vnth 1 a)) es [])
+    else let pl := msi_plan pt pd it iin (zlen (idata s0 iin)) (vz (vnth 1 a)) es [] in
+         rep 2 (is_complete (check pt pd it 0 pl)) pl
+  else if strat =? 5 then
+    let pl := pe_sign_plan pt pd it iin (zlen (idata s0 iin)) (map patch_of (vl (vnth 0 a))) (vz (vnth 1 a)) (vz (vnth 2 a)) (vb (vnth 3 a)) in
+    rep 2 (is_complete (check pt pd it 0 pl)) pl
+  else
+    let io := map io_of (vl (vnth 3 a)) in
+    atomic (vbool (vnth 0 a)) (pgp_plan pt pd it (vbool (vnth 1 a)) (vbool (vnth 2 a)) io)
+           (stdout_plan pt pd
+              ((if pgp_merges (vbool (vnth 1 a)) (vbool (vnth 2 a)) then [(SNop K_SEEK_IN, false, false)] else []) ++
+               map (fun x => match x with MRead => (SNop K_READ_IN, false, false) | MSeek => (SNop K_SEEK_IN, true, false) | MWrite d | MWriteLast d => (SStdout d, false, false) end) io ++
+               [(SNop K_CLOSE_IN, true, false)])).
+
+Definition run (v : val) : val := if vz (vnth 0 v) =? 0 then run_old v else run_new v.
